@@ -1,7 +1,7 @@
 (* C03: an accepted Discover is answered by exactly one correct Hello.
    Statements only: each theorem restates the full type of a lemma proved in coq/proofs and is closed by
    `exact`; Print Assumptions beneath.  Regenerate with bin/genprops.py after a lemma changes. *)
-From LLTD Require Import BlockFun BlockNominal PropsMapper SystemRefinement.
+From LLTD Require Import BlockFun BlockNominal PropsMapper SystemRefinement BufferLevel HelloHistory.
 
 Theorem C03_accepted_discover_one_hello :
   forall (ctx : N) (c : pcfg) (g : gcfg) (mtu : N) (s : ist) (buf : list N) (h : hdr),
@@ -78,3 +78,44 @@ Theorem C03_on_the_buffer_level_model :
   [tx ctx (hello_frame c g h (h_w0 h))]) ++ w_trace w /\ BlockSafe.ledger_reg bl bb r' w'.
 Proof. exact C03_buffer_level. Qed.
 Print Assumptions C03_on_the_buffer_level_model.
+
+Theorem C03_every_hello_of_any_history :
+  forall (junk : N) (cfgs : N -> pcfg) (g : gcfg) (mtus : N -> N),
+  cfgs_nominal cfgs mtus ->
+  (forall k : N, TxProofs.cfg_wf (cfgs k) g) ->
+  forall (l : list BlockSafe.fop) (r : registry) (w : world) (bl : nat) (bb : N),
+  Forall (fop_len cfgs) l ->
+  BlockSafe.ledger_reg bl bb r w ->
+  exists (r' : registry) (w' : world) (ta : list (N * action)),
+  BlockSafe.run_frames no_fail no_fail junk cfgs g r l w = Ok r' w' /\
+  ta = snd (Isolation.sys_run cfgs g mtus (reg_state r) (fframes l)) /\
+  w_trace w' = rev (map snd ta) ++ w_trace w /\
+  BlockSafe.ledger_reg bl bb r' w' /\
+  (forall (k k' : N) (ok : bool) (fr : list N),
+  In (k, Send k' ok fr) ta -> nth 17 fr 0%N = opcode_hello -> hello_explained cfgs g l k k' ok fr).
+Proof. exact C03_C04_buffer_level_history. Qed.
+Print Assumptions C03_every_hello_of_any_history.
+
+Theorem C03_hello_only_for_an_accepted_discover :
+  forall (junk : N) (cfgs : N -> pcfg) (g : gcfg) (mtus : N -> N),
+  cfgs_nominal cfgs mtus ->
+  forall (l : list BlockSafe.fop) (r : registry) (w : world) (bl : nat) (bb : N),
+  Forall (fop_len cfgs) l ->
+  BlockSafe.ledger_reg bl bb r w ->
+  exists (r' : registry) (w' : world) (ta : list (N * action)),
+  BlockSafe.run_frames no_fail no_fail junk cfgs g r l w = Ok r' w' /\
+  ta = snd (Isolation.sys_run cfgs g mtus (reg_state r) (fframes l)) /\
+  w_trace w' = rev (map snd ta) ++ w_trace w /\
+  (forall (k k' : N) (ok : bool) (fr : list N),
+  In (k, Send k' ok fr) ta ->
+  nth 17 fr 0%N = opcode_hello ->
+  exists (l1 : list (N * list N)) (buf : list N) (l2 : list (N * list N))
+  (h : hdr),
+  fframes l = l1 ++ (k, buf) :: l2 /\
+  parse_hdr buf = Some h /\
+  is_discover h = true /\
+  (let s := fst (Isolation.sys_run cfgs g mtus (reg_state r) l1) k in
+  (active s = None \/ active s = Some (h_rsrc h)) /\
+  k' = k /\ ok = true /\ fr = hello_frame (cfgs k) g h (h_w0 h))).
+Proof. exact C03_hello_accepted_history. Qed.
+Print Assumptions C03_hello_only_for_an_accepted_discover.
